@@ -144,6 +144,35 @@ func RunProxy(c *Ctx) error {
 		}
 	}
 	da.ErrWrap = ""
+	// a backing DA layer that takes longer to answer than any transport deadline one would think of (but less than the
+	// node allows a submission): the answer crosses the wire unchanged
+	slow := []string{"none"}
+	if c.Thorough() {
+		slow = []string{"none", "timeout", "mempool"}
+	}
+	for _, fault := range slow {
+		seq++
+		blobs := [][]byte{[]byte(fmt.Sprintf("%04d-slow", seq)), []byte("second")}
+		for _, p := range paths {
+			da.SubmitScript = nil
+			if fault != "none" {
+				da.SubmitScript = []string{fault}
+			}
+			if p.name == "proxy" {
+				da.SubmitDelay = 10500 * time.Millisecond
+			}
+			s0 := da.Submits
+			ctx, cancel := context.WithTimeout(context.Background(), 50*time.Second)
+			res := types.SubmitWithHelpers(ctx, p.da, logger, blobs, 1.0, nil)
+			cancel()
+			sent := 0
+			if da.Submits > s0 {
+				sent = da.LastOffered
+			}
+			c.Tr.Emit("PCall", world.F{"op": "submit", "via": p.name, "nb": 2, "fit": 2, "fault": fault, "code": codeNames[res.Code],
+				"count": int(res.SubmittedCount), "nblobs": 0, "sent": sent, "blobsok": true, "slow": p.name == "proxy"})
+		}
+	}
 	// batches whose size is at and near the client's DEFAULT limit (what crosses the wire is larger than the raw
 	// blobs): the same answer through the proxy as in-process
 	{
